@@ -982,3 +982,20 @@ func (f *File) WriteTo(w io.Writer) (int64, error) {
 	}
 	return io.Copy(w, struct{ io.Reader }{f})
 }
+
+// remaining os API, passed through unchanged
+const (
+	SEEK_SET = os.SEEK_SET
+	SEEK_CUR = os.SEEK_CUR
+	SEEK_END = os.SEEK_END
+)
+
+func Getegid() int              { return os.Getegid() }
+func Geteuid() int              { return os.Geteuid() }
+func Getgroups() ([]int, error) { return os.Getgroups() }
+func CopyFS(dir string, fsys fs.FS) error {
+	if isSim(dir) {
+		return &fs.PathError{Op: "copyfs", Path: dir, Err: errors.New("not supported on the simulated disk")}
+	}
+	return os.CopyFS(dir, fsys)
+}
